@@ -176,13 +176,33 @@ class FrameRecorder:
         self.events.append(out)
         return f
 
+    def _getframe(self, depth=0):
+        """the same recorder for a capture written with `sys._getframe(depth)`"""
+        f = sys._getframe(1)
+        out, g = [], f
+        while g is not None:
+            out.append((g.f_code.co_name, g.f_code.co_filename, g.f_lineno))
+            g = g.f_back
+        self.events.append(out)
+        return sys._getframe(depth + 1)
+
+    def __getattr__(self, name):
+        return getattr(self.delegate, name)
+
     def __enter__(self):
-        self.old = tbmod.inspect
-        tbmod.inspect = self
+        # get_stack_frame reaches the interpreter's frames through a module attribute of traceback.py: `inspect` in the
+        # pinned source; a rewrite may use `sys` instead.  Anything else cannot be observed from here.
+        self.attr = "inspect" if hasattr(tbmod, "inspect") else ("sys" if hasattr(tbmod, "sys") else None)
+        if self.attr is None:
+            from harness.common import Broken
+            raise Broken("correspondence", "frame-capture", "uberjob._util.traceback reaches the stack neither through `inspect` nor `sys`")
+        self.old = getattr(tbmod, self.attr)
+        self.delegate = self.old
+        setattr(tbmod, self.attr, self)
         return self
 
     def __exit__(self, *a):
-        tbmod.inspect = self.old
+        setattr(tbmod, self.attr, self.old)
 
 
 def chain_list(sf):
@@ -374,10 +394,19 @@ SITE_FN = {"planCall": "call", "planGather": "gather", "planUnpack": "unpack", "
            "registrySource": "source", "run": "run"}
 
 
-def gen_case(rng, name, depth, threaded, ipython=False):
+# code that was not loaded from a file: exec / `python -c` / stdin / doctest / generated code
+ANGLE = ["<string>", "<stdin>", "<doctest user_mod[3]>", "<generated pipeline>"]
+
+
+def gen_case(rng, name, depth, threaded, ipython=False, angle=False):
     files = [rng.choice(FILES) for _ in range(depth)]
     if ipython and depth >= 2:
         files[rng.randint(1, depth - 1)] = IPY
+    if angle:
+        files[0] = rng.choice(ANGLE)                 # the creating line itself
+        for k in range(1, depth):
+            if rng.random() < 0.4:
+                files[k] = rng.choice(ANGLE)
     return {"scenario": name, "depth": depth, "threaded": threaded, "files": files,
             "offsets": [rng.randint(0, 400) for _ in range(depth)], "variant": rng.randint(0, 10 ** 6)}
 
@@ -637,6 +666,8 @@ def _cases(ctx):
             cases.append(gen_case(rng, name, depth, True, ipython=True))
         for depth in ([1, 3] if quick else [1, 2, 3, 5, 8]):
             cases.append(gen_case(rng, name, depth, False))          # on top of the harness' own (deep) stack
+        for depth in ([1, 3] if quick else [1, 2, 3, 4, 6]):
+            cases.append(gen_case(rng, name, depth, True, angle=True))
     if not quick:
         for _ in range(1500):
             cases.append(gen_case(rng, rng.choice(list(SCENARIOS)), rng.randint(1, 8), rng.random() < 0.85,
